@@ -28,6 +28,13 @@ def pTy : P Ty
   | t :: ts => if t.startsWith "E" then (t.drop 1).toString.toNat?.map fun n => (.enum n, ts) else none
   | [] => none
 
+def pDTy : P DTy
+  | "I" :: ts => some (.int, ts)
+  | "B" :: ts => some (.bool, ts)
+  | "O" :: ts => some (.opaque, ts)
+  | t :: ts => if t.startsWith "E" then (t.drop 1).toString.toNat?.map fun n => (.enum n, ts) else none
+  | [] => none
+
 def binOpOf : String → Option BinOp
   | "add" => some .add | "sub" => some .sub | "mul" => some .mul | "and" => some .and
   | "or" => some .or | "eq" => some .eq | "ne" => some .ne | "lt" => some .lt
@@ -55,9 +62,9 @@ partial def pExpr : P Expr
   | "cp" :: ts => do let (l, ts) ← pLoc ts; let (d, ts) ← pLoc ts; pure (.cphys l d, ts)
   | "cv" :: ts => do let (l, ts) ← pLoc ts; let (d, ts) ← pExpr ts; pure (.cvirt l d, ts)
   | "co" :: ts => do let (l, ts) ← pLoc ts; pure (.cother l, ts)
-  | "lp" :: ts => do let (l, ts) ← pLoc ts; let (t, ts) ← pTy ts; pure (.lparam l t, ts)
+  | "lp" :: ts => do let (l, ts) ← pLoc ts; let (t, ts) ← pDTy ts; pure (.lparam l t, ts)
   | "la" :: ts => do let (l, ts) ← pLoc ts; pure (.lparamArr l, ts)
-  | "lf" :: ts => do let (l, ts) ← pLoc ts; let (t, ts) ← pTy ts; pure (.lphys l t, ts)
+  | "lf" :: ts => do let (l, ts) ← pLoc ts; let (t, ts) ← pDTy ts; pure (.lphys l t, ts)
   | "lv" :: ts => do let (l, ts) ← pLoc ts; let (d, ts) ← pExpr ts; pure (.lvirt l d, ts)
   | "bi" :: ts => do let (l, ts) ← pLoc ts; let (n, ts) ← pNat ts; pure (.builtin l (n != 0), ts)
   | "op" :: ts => do
@@ -89,7 +96,7 @@ def pParam : P Param := fun ts => do
   let (l, ts) ← pLoc ts
   match ts with
   | "A" :: ts => pure (⟨l, .array⟩, ts)
-  | "T" :: ts => do let (t, ts) ← pTy ts; pure (⟨l, .atomic t⟩, ts)
+  | "T" :: ts => do let (t, ts) ← pDTy ts; pure (⟨l, .atomic t⟩, ts)
   | _ => none
 
 def pPair : P (Expr × Expr) := fun ts => do
